@@ -136,10 +136,10 @@ def r11_2(ctx):
         reg = region_of(rc)
         # snapshot argument is the thread's buffer
         arg = rc.args[0] if rc.args else None
-        if isinstance(arg, ast.Name):
-            ds = [x.value for x in walk_local(f.node) if isinstance(x, ast.Assign) and len(x.targets) == 1 and norm(x.targets[0]) == arg.id]
-            if len(ds) == 1:
-                arg = ds[0]
+        from ..astutil import inline as _inl, single_defs as _sdf
+        _sd = _sdf(f.node)
+        if arg is not None:
+            arg = _inl(arg, _sd)
         ctx.check(arg is not None and "self._buffer" in norm(arg), f.fq, short(rc), f"{mod.relpath}:{rc.lineno}",
                   "renders the calling thread's own buffer", f"renders `{norm(arg) if arg is not None else None}`, not the thread's buffer")
         target = st.targets[0].id if isinstance(st, ast.Assign) and isinstance(st.targets[0], ast.Name) else None
@@ -171,7 +171,7 @@ def r11_2(ctx):
                 ctx.check(okg, f.fq, f"guard of {short(wc)}", f"{mod.relpath}:{wc.lineno}", "write only when no buffer context is open (_buffer_index == 0)",
                           "file write is not guarded by `_buffer_index == 0`: output printed inside a capture / nested context would reach the file")
         # the buffer is cleared in the same region
-        dels = [d for d in walk_local(f.node) if isinstance(d, ast.Delete) and any("self._buffer" in norm(t) for t in d.targets)]
+        dels = [d for d in walk_local(f.node) if isinstance(d, ast.Delete) and any("self._buffer" in norm(_inl(t, _sd)) for t in d.targets)]
         okd = any(region_of(d) is reg and reg is not None for d in dels)
         ctx.check(okd, f.fq, "del self._buffer[:]", f"{mod.relpath}:{st.lineno}", "buffer cleared in the region that rendered it (nothing written twice)",
                   "the rendered buffer is not cleared inside the same lock region: the same segments can be written again")
